@@ -32,10 +32,10 @@ type trimCase struct {
 
 var trimCache = map[string]*builtG{}
 
-func trimGrammar(toks []int, lm, rm []string) []gnode { return trimGrammarSfx(toks, lm, rm, false) }
+func trimGrammar(toks []int, lm, rm []string) []gnode { return trimGrammarSfx(toks, lm, rm, 0) }
 
 // the layout of TrimMC!GrammarOf: a token is Choice(SeqOf(t, x), t) with sfx, Choice(t) without
-func trimGrammarSfx(toks []int, lm, rm []string, sfx bool) []gnode {
+func trimGrammarSfx(toks []int, lm, rm []string, form int) []gnode {
 	k := len(toks)
 	G := make([]gnode, 0, 6*k+2)
 	var items []int
@@ -43,8 +43,16 @@ func trimGrammarSfx(toks []int, lm, rm []string, sfx bool) []gnode {
 		b := 6 * i
 		G = append(G, gnode{K: "term", Ch: toks[i], Name: termName(toks[i]), Kids: []int{}})
 		G = append(G, gnode{K: "term", Ch: 'x', Name: termName('x'), Kids: []int{}})
+		if form == 2 { // Choice(LeftTrim(t), LeftTrim(x)): the left trims inside the Choice
+			G = append(G, gnode{K: "ltrim", Mode: lm[i], Kids: []int{b + 1}})
+			G = append(G, gnode{K: "ltrim", Mode: lm[i], Kids: []int{b + 2}})
+			G = append(G, gnode{K: "choice", Kids: []int{b + 3, b + 4}})
+			G = append(G, gnode{K: "rtrim", Mode: rm[i], Kids: []int{b + 5}})
+			items = append(items, b+6)
+			continue
+		}
 		G = append(G, gnode{K: "seq", Mode: "of", Kids: []int{b + 1, b + 2}})
-		if sfx {
+		if form == 1 {
 			G = append(G, gnode{K: "choice", Kids: []int{b + 3, b + 1}})
 		} else {
 			G = append(G, gnode{K: "choice", Kids: []int{b + 1}})
@@ -202,7 +210,7 @@ func trimMain(mode string, a args) {
 		emit := func(toks []int, gaps [][]int, lm, rm []string, base int) {
 			content := trimText(toks, gaps)
 			t := &tracer{budget: 100000, quiet: true}
-			obs, _ := trimObserve(trimGrammarSfx(toks, lm, rm, (len(content)+base)%2 == 0), content, base, t)
+			obs, _ := trimObserve(trimGrammarSfx(toks, lm, rm, (len(content)+base)%3), content, base, t)
 			e := J{"toks": toks, "gaps": gaps, "lm": lm, "rm": rm, "B": base}
 			for k, v := range obs {
 				e[k] = v
